@@ -365,6 +365,7 @@ def client_stage(c):
     for bname, kw in backends:
       vizier_client.environment_variables.servicer_kwargs = dict(kw)
       vizier_client._create_local_vizier_servicer.cache_clear()   # pylint: disable=protected-access
+      prev_shared = None        # the handle of the previous study that had the shared name (another worker's view)
       for si in range(n_spaces):
         nodes = gen_space(c.rng, c.rng.choice([1, 2, 3]))
         try:
@@ -409,6 +410,16 @@ def client_stage(c):
             a = dict(stored_trial)
           real = _try(lambda: dict(t.parameters))
           c.traces += 1
+          if shared and prev_shared is not None:
+            # the same trial through a handle that was opened (and used) before the study was deleted and created
+            # again under its name by someone else: it must present what the study declares NOW
+            old = _try(lambda: dict(prev_shared.get_trial(t.id).parameters))
+            same = (old[0] == real[0]) and (canon_real(old[1]) == canon_real(real[1]) if real[0] == 'ok' else type(old[1]) is type(real[1]))
+            if not same:
+              c.prop_fail('stale-handle-presents-differently',
+                          'a study handle opened before the study was re-created under the same name presents trial %s as %s, a fresh handle as %s (%s)' % (
+                              t.id, str(old[1])[:160], str(real[1])[:160], bname),
+                          {'backend': bname, 'space': dumped, 'trial': {k: sl.tag(v) for k, v in a.items()}, 'kind': kind})
           reqs_m.append(dict(CFG, op='present', wire=True, pcs=server_space, trial=sl.assign_json(a)))
           reqs_j.append({'op': 'judge', 'pcs': dumped, 'stored': sl.assign_json({k: wire_py(v) for k, v in a.items()}),
                          'out': enc_out(real[1]) if real[0] == 'ok' else None})
@@ -418,6 +429,7 @@ def client_stage(c):
           gone = _try(study.delete)
           if gone[0] != 'ok':
             raise core.InfraError('cannot delete study %s: %s' % (sid, gone[1]))
+          prev_shared = study
   finally:
     # never leave the default (a SQLite FILE inside the repo tree, constants.SQL_LOCAL_URL) behind
     vizier_client.environment_variables.servicer_kwargs = dict(saved, database_url=saved.get('database_url'))
